@@ -43,6 +43,40 @@ def gen_poly(rng, quick=True, max_rows=None, max_cols=None, wide=False):
     return {"bnds": bnds, "rows": rows}
 
 
+def gen_chain(rng, quick=True):
+    """an implication chain over boolean columns: one row forces a first column, every further row forces one more
+    column once the previous one is known — reducable_rows_and_columns needs one round of its loop per link.  Rows and the
+    column order are shuffled, so columns removed early sit left and right of columns still open."""
+    nc = rng.randint(3, 5 if quick else 7)
+    order = list(range(nc)); rng.shuffle(order)
+    val = {}
+    rows = []
+    j0 = order[0]
+    cs = [0] * nc
+    if rng.random() < 0.5:
+        cs[j0] = 1; rows.append([1, cs]); val[j0] = 1          # x >= 1
+    else:
+        cs[j0] = -1; rows.append([0, cs]); val[j0] = 0         # -x >= 0
+    links = rng.randint(2, nc - 1)
+    for k in range(1, links + 1):
+        jp, j = order[k - 1], order[k]
+        cs = [0] * nc
+        want = rng.choice([0, 1])
+        if val[jp] == 1 and want == 1: cs[jp], cs[j], b = -1, 1, 0      # x_j >= x_p
+        elif val[jp] == 1 and want == 0: cs[jp], cs[j], b = -1, -1, -1  # x_j + x_p <= 1
+        elif val[jp] == 0 and want == 1: cs[jp], cs[j], b = 1, 1, 1     # x_j + x_p >= 1
+        else: cs[jp], cs[j], b = 1, -1, 0                               # x_j <= x_p
+        rows.append([b, cs]); val[j] = want
+    # a few unrelated rows over the remaining columns
+    for _ in range(rng.randint(0, 2)):
+        cs = [0] * nc
+        for j in order[links + 1:]:
+            cs[j] = rng.choice([0, 1, -1])
+        rows.append([rng.randint(-1, 1), cs])
+    rng.shuffle(rows)
+    return {"bnds": [[0, 1] for _ in range(nc)], "rows": rows}
+
+
 def real_poly(p, ids=None, dtype=None):
     nc = len(p["bnds"])
     ids = ids or [f"x{j}" for j in range(nc)]
